@@ -126,4 +126,5 @@ UNITS.append(Unit('string_format', harness=['h_string_format.cpp'], repo_units=[
 for _fn in _re.findall(r'^HARNESS (h_\w+)\(\)', open(_os.path.join(_os.path.dirname(_os.path.abspath(__file__)), 'h_string_format.cpp')).read(), _re.M):
     HARNESSES.append(Harness('string_format', _fn, unwind=162, mem_gb=6, timeout=900,
                              bounds='String with external storage of capacity 140 holding 0 or 5 characters, append_format("%s", text) with a text of exactly the length in the harness comment (one below / equal to / one above the remaining capacity); characters symbolic'))
+OUTSIDE += ['String::_op_vformat through its 1024-byte stack buffer at the 1023/1024/1025-character boundary: a harness with 1024 symbolic characters (unwind 1042) ran out of its 12 GB budget without a verdict (seeded change C18-m4 is therefore not reported)']
 ASSUMPTIONS += ['string_format: vsnprintf is the model tools/verif_printf.c (validated against libc by the native twins)']
